@@ -386,6 +386,12 @@ def r8(ctx):
              "the backlog capacity test counts requests whose connector already gave up (they are only purged lazily by accept): `tcp_capacity` abandoned "
              "connects to a slow listener make the next SYN panic the simulation with `server socket buffer full` although nothing is pending")
     push = [bb for bb, t in rf.calls(re.compile(r"^std::collections::VecDeque::push_back$"))]
+    # (a') the queue holds up to `capacity` requests: the test is made on the queue as it is *before* the new request goes in (it
+    # dominates the push); a test after the push refuses the capacity-th pending request
+    okb = bool(caps) and bool(push) and all(rf.dominated_by_any(x, blocks=caps) for x in push)
+    ctx.inst(R, "backlog:capacity-tested-before-the-enqueue", okb, rf.site(caps[0]) if caps else rf.span, "the capacity test precedes the enqueue" if okb else
+             "the `len() == server_socket_capacity` test is made after the request was pushed: the backlog is one short - the tcp_capacity-th pending connect (a burst released from a hold) "
+             "panics the simulation with `server socket buffer full` although the queue never exceeded its capacity")
     fe_ck = []
     for sbb, te, fe, o in guards_on(rf, lambda o: o["k"] == "call" and re.search(r"IndexMap::contains_key$|Tcp::is_connected$", o["t"]["f"])):
         if "field:turmoil::host::Tcp::sockets" in Slicer(ctx.w, into_callees=1).atoms(rf, o["t"]["args"][0]):
